@@ -371,6 +371,8 @@ def mse_loss_backward(grad: np.ndarray, y_pred: np.ndarray, y_true: np.ndarray) 
     
     
 def nll_loss_forward(y_pred: np.ndarray, y_true: np.ndarray) -> np.ndarray:
+    if y_true.ndim != 1 or len(y_true) != len(y_pred): # anything else would broadcast against range(N) silently
+        raise ValueError(f"Expected one class index per sample, a target of shape ({len(y_pred)},), but got {y_true.shape}")
     loss = -y_pred[range(len(y_pred)), y_true] # one value per sample: shape (N,), as in PyTorch
     return loss
 
